@@ -13,6 +13,7 @@ import (
 	"math/rand"
 	"reflect"
 	"sort"
+	"strconv"
 	"strings"
 
 	"github.com/ohler55/ojg"
@@ -42,7 +43,7 @@ func init() {
 		Findings: map[string]func(v *mon.Violation) bool{},
 		Floors: func(tier string, cover map[string]int64, evals int64) []string {
 			var out []string
-			for _, k := range []string{"type:named", "type:structof", "type:embedded-value", "type:embedded-pointer", "value:zero", "value:full", "value:rand", "value:nil-embedded-pointer", "pass:value", "pass:pointer", "pass:in-slice", "pass:in-map",
+			for _, k := range []string{"type:named", "type:structof", "type:embedded-value", "type:embedded-pointer", "value:zero", "value:full", "value:rand", "value:nil-embedded-pointer", "pass:value", "pass:pointer", "pass:in-slice", "pass:in-map", "pass:in-pointer-slice", "pass:in-pointer-map", "pass:in-any-slice",
 				"opt:UseTags", "opt:KeyExact", "opt:NestEmbed", "opt:OmitNil", "opt:OmitEmpty", "opt:CreateKey", "opt:FullTypePath", "opt:BytesAsBase64", "opt:BytesAsArray", "opt:Indent", "opt:Go-compatible", "encoding/json-compared"} {
 				if cover[k] == 0 {
 					out = append(out, "coverage class never reached: "+k)
@@ -55,8 +56,14 @@ func init() {
 
 // ---- reference tree with don't-care markers ----
 
-type anyOf []any   // one of the alternatives
+type anyOf []any // one of the alternatives
+// f32 is a number that came from a float32: alt.Decompose deliberately rounds
+// the widened value ("display nicer"), so such numbers are compared to float32
+// precision.
+type f32 float64
 type anything struct{} // unconstrained
+// strOf is a number or boolean written as a string (the "string" tag option).
+type strOf struct{ val any }
 
 type member struct {
 	keys     []string // acceptable keys (exactly one of them present)
@@ -86,6 +93,10 @@ func showTo(b *strings.Builder, v any, d int) {
 		b.WriteString("null")
 	case anything:
 		b.WriteString("<any>")
+	case strOf:
+		b.WriteString("string(")
+		showTo(b, t.val, d+1)
+		b.WriteString(")")
 	case anyOf:
 		b.WriteString("anyOf(")
 		for i, a := range t {
@@ -135,6 +146,8 @@ func showTo(b *strings.Builder, v any, d int) {
 		b.WriteString("}")
 	case string:
 		fmt.Fprintf(b, "%q", t)
+	case f32:
+		fmt.Fprintf(b, "%v", float64(t))
 	default:
 		fmt.Fprintf(b, "%v", t)
 	}
@@ -154,6 +167,12 @@ func norm(v any) any {
 		return float64(t)
 	case float32:
 		return float64(t)
+	case int8, int16, int32, uint, uint8, uint16, uint32:
+		rv := reflect.ValueOf(v)
+		if rv.CanInt() {
+			return float64(rv.Int())
+		}
+		return float64(rv.Uint())
 	case []any:
 		out := make([]any, len(t))
 		for i, m := range t {
@@ -169,6 +188,9 @@ func norm(v any) any {
 	}
 	return v
 }
+
+// senRead is set while the output of a SEN encoder (read with sen.Parse) is matched.
+var senRead bool
 
 // match returns "" when obs is an acceptable encoding of ref, else where and why not.
 func match(ref, obs any, path string) string {
@@ -190,6 +212,41 @@ func match(ref, obs any, path string) string {
 	case nil:
 		if obs != nil {
 			return fmt.Sprintf("%s: expected null, got %s", path, show(obs))
+		}
+	case strOf:
+		str, ok := obs.(string)
+		if !ok && senRead {
+			// "-1" and "true" are written bare by the SEN writers and read back as a number / boolean:
+			// C10's open findings F-C10-sign and F-C10-keyword, not an encoder disagreement
+			return match(r.val, obs, path)
+		}
+		if !ok {
+			return fmt.Sprintf("%s: expected %s as a string, got %s", path, show(r.val), show(obs))
+		}
+		switch t := r.val.(type) {
+		case bool:
+			if str != fmt.Sprint(t) {
+				return fmt.Sprintf("%s: expected %q, got %q", path, fmt.Sprint(t), str)
+			}
+		case float64, f32:
+			f, err := strconv.ParseFloat(str, 64)
+			if err != nil {
+				return fmt.Sprintf("%s: expected a number in a string, got %q", path, str)
+			}
+			return match(r.val, f, path)
+		}
+	case f32:
+		o, ok := obs.(float64)
+		d := o - float64(r)
+		if d < 0 {
+			d = -d
+		}
+		m := float64(r)
+		if m < 0 {
+			m = -m
+		}
+		if !ok || d > m*2e-7 {
+			return fmt.Sprintf("%s: expected %v (float32), got %s", path, float64(r), show(obs))
 		}
 	case bool, string, float64:
 		if !reflect.DeepEqual(ref, obs) {
@@ -247,6 +304,13 @@ type enc struct {
 	o *ojg.Options
 }
 
+func uniq(a, b string) []string {
+	if a == b {
+		return []string{a}
+	}
+	return []string{a, b}
+}
+
 func lowerFirst(s string) string {
 	if s == "" {
 		return s
@@ -293,44 +357,6 @@ func isNilContainer(v reflect.Value) bool {
 	return false
 }
 
-// deepEmpty: the value, after dereferencing, is empty or would be written as
-// an object/array without content (used for the OmitEmpty don't-care zone).
-func deepEmpty(v reflect.Value) bool {
-	switch v.Kind() {
-	case reflect.Interface, reflect.Ptr:
-		if v.IsNil() {
-			return true
-		}
-		return deepEmpty(v.Elem())
-	case reflect.Struct:
-		for i := 0; i < v.NumField(); i++ {
-			if v.Type().Field(i).PkgPath == "" && !deepEmpty(v.Field(i)) {
-				return false
-			}
-		}
-		return true
-	case reflect.Map:
-		it := v.MapRange()
-		for it.Next() {
-			if !deepEmpty(it.Value()) {
-				return false
-			}
-		}
-		return true
-	case reflect.Slice, reflect.Array:
-		if v.Kind() == reflect.Array {
-			for i := 0; i < v.Len(); i++ {
-				if !deepEmpty(v.Index(i)) {
-					return false
-				}
-			}
-			return true
-		}
-		return v.Len() == 0
-	}
-	return emptyGo(v)
-}
-
 func (e *enc) value(v reflect.Value) any {
 	switch v.Kind() {
 	case reflect.Invalid:
@@ -346,7 +372,9 @@ func (e *enc) value(v reflect.Value) any {
 		return float64(v.Int())
 	case reflect.Uint, reflect.Uint8, reflect.Uint16, reflect.Uint32, reflect.Uint64:
 		return float64(v.Uint())
-	case reflect.Float32, reflect.Float64:
+	case reflect.Float32:
+		return f32(v.Float())
+	case reflect.Float64:
 		return v.Float()
 	case reflect.String:
 		return v.String()
@@ -373,7 +401,7 @@ func (e *enc) value(v reflect.Value) any {
 		for it.Next() {
 			mv := it.Value()
 			m := member{keys: []string{it.Key().String()}, val: e.value(mv)}
-			if e.omitMember(mv, false, &m) {
+			if e.omitMember(mv, false, &m, true) {
 				continue
 			}
 			obj.members = append(obj.members, m)
@@ -406,17 +434,77 @@ func (e *enc) bytes(v reflect.Value) any {
 	return out
 }
 
+// refEmpty: the reference encoding is empty in the widest sense (null, zero,
+// "", an array of such, an object whose members are all optional or empty).
+func refEmpty(n any) bool {
+	switch t := n.(type) {
+	case nil, anything:
+		return true
+	case strOf:
+		return refEmpty(t.val)
+	case bool:
+		return !t
+	case string:
+		return t == ""
+	case float64:
+		return t == 0
+	case f32:
+		return t == 0
+	case []any:
+		for _, m := range t {
+			if !refEmpty(m) {
+				return false
+			}
+		}
+		return true
+	case *object:
+		for _, m := range t.members {
+			if !m.optional && !refEmpty(m.val) {
+				return false
+			}
+		}
+		return true
+	case anyOf:
+		for _, a := range t {
+			if refEmpty(a) {
+				return true
+			}
+		}
+	}
+	return false
+}
+
+// deepNil: a chain of pointers/interfaces that ends in nil.
+func deepNil(v reflect.Value) bool {
+	for v.Kind() == reflect.Ptr || v.Kind() == reflect.Interface {
+		if v.IsNil() {
+			return true
+		}
+		v = v.Elem()
+	}
+	return false
+}
+
 // omitMember applies the omission rules to one object member. It returns true
 // when the member must be absent and marks it optional when presence is
 // don't-care.
-func (e *enc) omitMember(v reflect.Value, tagOmitEmpty bool, m *member) (absent bool) {
+func (e *enc) omitMember(v reflect.Value, tagOmitEmpty bool, m *member, inMap bool) (absent bool) {
 	o := e.o
 	if tagOmitEmpty && emptyGo(v) {
 		return true
 	}
 	if o.OmitNil || o.OmitEmpty {
 		if isNilPtrOrIface(v) {
+			if inMap && !o.OmitNil {
+				// OmitEmpty alone: the writers keep null and zero scalars in maps, alt.Decompose
+				// drops them; the Options comment concedes that maps differ
+				m.optional = true
+				return false
+			}
 			return true
+		}
+		if deepNil(v) {
+			m.optional = true // a pointer to a nil pointer, an interface holding a nil pointer
 		}
 		if isNilContainer(v) {
 			// "nil values": a nil slice or map is one; encoding it as an
@@ -428,6 +516,12 @@ func (e *enc) omitMember(v reflect.Value, tagOmitEmpty bool, m *member) (absent 
 		m.optional = true
 	}
 	if o.OmitEmpty {
+		if inMap {
+			if refEmpty(m.val) {
+				m.optional = true
+			}
+			return false
+		}
 		switch v.Kind() {
 		case reflect.String, reflect.Bool, reflect.Int, reflect.Int8, reflect.Int16, reflect.Int32, reflect.Int64,
 			reflect.Uint, reflect.Uint8, reflect.Uint16, reflect.Uint32, reflect.Uint64, reflect.Float32, reflect.Float64:
@@ -438,13 +532,13 @@ func (e *enc) omitMember(v reflect.Value, tagOmitEmpty bool, m *member) (absent 
 			if v.Len() == 0 {
 				return true
 			}
-			if deepEmpty(v) {
+			if refEmpty(m.val) {
 				m.optional = true
 			}
 		default:
 			// zero structs, arrays of zeros, non-nil pointers/interfaces to
 			// empty values, objects left without members: don't-care
-			if deepEmpty(v) {
+			if refEmpty(m.val) {
 				m.optional = true
 			}
 		}
@@ -471,7 +565,7 @@ func (e *enc) key(f *reflect.StructField) (keys []string, skip, tagOmit, asStrin
 		if o.KeyExact {
 			return []string{name}, false, false, false
 		}
-		return []string{lowerFirst(name), name}, false, false, false
+		return uniq(lowerFirst(name), name), false, false, false
 	}
 	parts := strings.Split(tag, ",")
 	if parts[0] == "-" && len(parts) == 1 {
@@ -489,7 +583,7 @@ func (e *enc) key(f *reflect.StructField) (keys []string, skip, tagOmit, asStrin
 		if o.KeyExact {
 			return []string{name}, false, tagOmit, asString
 		}
-		return []string{lowerFirst(name), name}, false, tagOmit, asString
+		return uniq(lowerFirst(name), name), false, tagOmit, asString
 	}
 	return []string{parts[0]}, false, tagOmit, asString
 }
@@ -535,15 +629,21 @@ func (e *enc) fields(v reflect.Value, obj *object) {
 				continue
 			}
 		}
+		if f.PkgPath != "" {
+			// NestEmbed and an embedded struct of unexported type: whether an element named after the
+			// unexported type is generated is not documented
+			obj.members = append(obj.members, member{keys: uniq(f.Name, lowerFirst(f.Name)), val: anything{}, optional: true})
+			continue
+		}
 		keys, skip, tagOmit, asString := e.key(&f)
 		if skip {
 			continue
 		}
 		m := member{keys: keys, val: e.value(fv)}
 		if asString {
-			m.val = anything{}
+			m.val = strOf{m.val}
 		}
-		if e.omitMember(fv, tagOmit, &m) {
+		if e.omitMember(fv, tagOmit, &m, false) {
 			continue
 		}
 		obj.members = append(obj.members, m)
@@ -574,7 +674,9 @@ var encoders = []encoder{
 		return string(w.MustJSON(v)), nil, false, nil
 	}},
 	{"sen.String", true, func(v any, o *ojg.Options) (string, any, bool, error) { return sen.String(v, o), nil, false, nil }},
-	{"sen.Bytes", true, func(v any, o *ojg.Options) (string, any, bool, error) { return string(sen.Bytes(v, o)), nil, false, nil }},
+	{"sen.Bytes", true, func(v any, o *ojg.Options) (string, any, bool, error) {
+		return string(sen.Bytes(v, o)), nil, false, nil
+	}},
 	{"pretty.JSON", false, func(v any, o *ojg.Options) (string, any, bool, error) { return pretty.JSON(v, o), nil, false, nil }},
 	{"pretty.SEN", true, func(v any, o *ojg.Options) (string, any, bool, error) { return pretty.SEN(v, o), nil, false, nil }},
 	{"alt.Decompose", false, func(v any, o *ojg.Options) (string, any, bool, error) { return "", alt.Decompose(v, o), true, nil }},
@@ -706,7 +808,10 @@ func (ck *checker) one(val any, label string, o *ojg.Options, goCompat bool) {
 				continue
 			}
 		}
-		if m := match(ref, norm(tree), "$"); m != "" {
+		senRead = en.sen
+		m := match(ref, norm(tree), "$")
+		senRead = false
+		if m != "" {
 			c.Violation(en.name, "differs-from-reference", classify(m)+"/"+cls, cs, refText, m+" :: got "+clip(show(norm(tree))))
 		}
 	}
@@ -773,7 +878,7 @@ func (ck *checker) options(r *rand.Rand) (o ojg.Options, goCompat bool) {
 	o.OmitEmpty = r.Intn(4) == 0
 	o.CreateKey = createKeys[r.Intn(len(createKeys))]
 	o.FullTypePath = o.CreateKey != "" && r.Intn(2) == 0
-	o.BytesAs = r.Intn(3)
+	o.BytesAs = []int{0, ojg.BytesAsString, ojg.BytesAsBase64, ojg.BytesAsArray}[r.Intn(4)] // the constants do not start at zero
 	if r.Intn(2) == 0 {
 		o.Indent = 1 + r.Intn(3)
 	}
@@ -826,10 +931,13 @@ func run(c *mon.Ctx) {
 	ck := &checker{c: c}
 	r := c.Rand("c15")
 	g := &typeGen{r: r}
-	n := c.Pick(24000, 400000) / c.Batches
+	n := c.Pick(200000, 3000000) / c.Batches
 	for i := 0; i < n; i++ {
 		var st reflect.Type
 		switch {
+		case i%23 == 0:
+			st = extraNamed[r.Intn(len(extraNamed))]
+			c.Cover("type:named-extra:" + st.Name())
 		case i%5 == 0:
 			st = namedTypes[r.Intn(len(namedTypes))]
 			c.Cover("type:named")
@@ -857,7 +965,7 @@ func run(c *mon.Ctx) {
 				c.Cover("value:nil-embedded-pointer")
 			}
 			o, goCompat := ck.options(r)
-			switch r.Intn(6) {
+			switch r.Intn(9) {
 			case 0, 1:
 				c.Cover("pass:value")
 				ck.one(pv.Elem().Interface(), "value", &o, goCompat)
@@ -870,6 +978,23 @@ func run(c *mon.Ctx) {
 				sl.Index(0).Set(pv.Elem())
 				g.fill(sl.Index(1), 2, "rand")
 				ck.one(sl.Interface(), "in-slice", &o, goCompat)
+			case 5:
+				c.Cover("pass:in-pointer-slice")
+				sl := reflect.MakeSlice(reflect.SliceOf(reflect.PointerTo(st)), 3, 3)
+				sl.Index(0).Set(pv)
+				p2 := reflect.New(st)
+				g.fill(p2.Elem(), 2, "rand")
+				sl.Index(2).Set(p2)
+				ck.one(sl.Interface(), "in-pointer-slice", &o, goCompat)
+			case 6:
+				c.Cover("pass:in-pointer-map")
+				m := reflect.MakeMap(reflect.MapOf(reflect.TypeOf(""), reflect.PointerTo(st)))
+				m.SetMapIndex(reflect.ValueOf("key"), pv)
+				m.SetMapIndex(reflect.ValueOf("nil"), reflect.Zero(reflect.PointerTo(st)))
+				ck.one(m.Interface(), "in-pointer-map", &o, goCompat)
+			case 7:
+				c.Cover("pass:in-any-slice")
+				ck.one([]any{pv.Elem().Interface(), pv.Interface(), nil, int64(3)}, "in-any-slice", &o, goCompat)
 			default:
 				c.Cover("pass:in-map")
 				m := reflect.MakeMap(reflect.MapOf(reflect.TypeOf(""), st))
